@@ -77,8 +77,8 @@ M = [
      "            \"@\" => attributes(node),", "            \"@\" => child(node),", "R08-3"),
     ("C08", "le-maps-to-ge", "xpath/src/expr/model.rs",
      "\"<=\" => RelationalOperator::LessEqual,", "\"<=\" => RelationalOperator::GreaterEqual,", "R08-5"),
-    ("C08", "or-separated-by-equality", "xpath/src/expr/mod.rs",
-     "        separated_list1(tuple((multispace0, tag(\"or\"), multispace0)), and_expr),", "        separated_list1(tuple((multispace0, tag(\"or\"), multispace0)), equality_expr),", "R08-1"),
+    ("C08", "and-also-separated-by-or", "xpath/src/expr/mod.rs",
+     "        separated_list1(tuple((multispace0, tag(\"and\"), multispace0)), equality_expr),", "        separated_list1(tuple((multispace0, alt((tag(\"and\"), tag(\"or\"))), multispace0)), equality_expr),", "R08-1"),
     ("C09", "substring-arity", "xpath/src/eval/func.rs",
      "            local_part: \"substring\".to_string(),\n            namespace_uri: None,\n            args: (2..3),", "            local_part: \"substring\".to_string(),\n            namespace_uri: None,\n            args: (2..2),", "R09-1"),
     ("C09", "ceiling-calls-floor", "xpath/src/eval/func.rs",
